@@ -77,22 +77,25 @@ noncomputable def minorVal {m : Nat} (A : _root_.Matrix (Fin (m + 1)) (Fin (m + 
   else 0
 
 open Classical in
-theorem inverseTensor_succ {ν : Type} (names : ν × ν) (m : Nat) (hm1 : 1 ≤ m)
-    (get : Nat → Nat → K) (heq : LawfulEq K) :
+theorem inverseTensor_succ {ν : Type} [DecidableEq ν] [Inhabited ν] (names : ν × ν)
+    (hne : names.1 ≠ names.2) (m : Nat) (hm1 : 1 ≤ m) (get : Nat → Nat → K) (heq : LawfulEq K) :
     inverseTensor names ⟨m + 1, m + 1, get⟩ =
       if (sqMat (m + 1) get).det = 0 then .ok none
       else .ok (some ⟨(indexPairs (m + 1) (m + 1)).map fun ij =>
           cofactorSign ij.2 ij.1 * minorVal (sqMat (m + 1) get) ij.2 ij.1
             * (1 / (sqMat (m + 1) get).det),
         [(names.1, m + 1), (names.2, m + 1)], computeStrides [(names.1, m + 1), (names.2, m + 1)]⟩) := by
-  rw [inverseTensor_square names (m + 1) (by omega) get, detModel_eq_det_all' (m + 1) (by omega)]
+  rw [inverseTensor_square names hne (m + 1) (by omega) get, detModel_eq_det_all' (m + 1) (by omega)]
   by_cases hd : (sqMat (m + 1) get).det = 0
   · rw [if_pos ((heq _ _).mpr hd), if_pos hd]
   · rw [if_neg (fun h => hd ((heq _ _).mp h)), if_neg hd]
-    rw [adjugateScaled_ok (m + 1) _ _ (minorVal (sqMat (m + 1) get))]
-    intro i j hi hj
-    rw [minorTensor_eq_det m hm1 get i j hi hj]
-    simp [minorVal, hi, hj]
+    rw [cofactorMatrix_ok (m + 1) _ (minorVal (sqMat (m + 1) get))]
+    · simp only
+      rw [scaled_transposed (m + 1) _
+        (fun ij => cofactorSign ij.1 ij.2 * minorVal (sqMat (m + 1) get) ij.1 ij.2)]
+    · intro i j hi hj
+      rw [minorTensor_eq_det m hm1 get i j hi hj]
+      simp [minorVal, hi, hj]
 
 omit [NumOrd K] in
 theorem matOfList_inv (m : Nat) (A : _root_.Matrix (Fin (m + 1)) (Fin (m + 1)) K) :
@@ -113,8 +116,8 @@ theorem matOfList_inv (m : Nat) (A : _root_.Matrix (Fin (m + 1)) (Fin (m + 1)) K
 open Classical in
 /-- The model's `inverse_tensor` on a square view of size over a field: absent exactly for
     determinant zero, otherwise a tensor of the input's shape whose buffer is Mathlib's `A⁻¹`. -/
-theorem inverseTensor_spec {ν : Type} (names : ν × ν) (n : Nat) (h1 : 1 ≤ n)
-    (get : Nat → Nat → K) (heq : LawfulEq K) :
+theorem inverseTensor_spec {ν : Type} [DecidableEq ν] [Inhabited ν] (names : ν × ν)
+    (hne : names.1 ≠ names.2) (n : Nat) (h1 : 1 ≤ n) (get : Nat → Nat → K) (heq : LawfulEq K) :
     ((sqMat n get).det = 0 → inverseTensor names ⟨n, n, get⟩ = .ok none) ∧
     ((sqMat n get).det ≠ 0 → ∃ data : List K,
       inverseTensor names ⟨n, n, get⟩
@@ -138,7 +141,7 @@ theorem inverseTensor_spec {ν : Type} (names : ν × ν) (n : Nat) (h1 : 1 ≤ 
       subst hi hj
       simp [Matrix.mul_apply, matOfList, sqMat, h0]
   · obtain ⟨m, rfl⟩ : ∃ m, n = m + 1 := ⟨n - 1, by omega⟩
-    rw [inverseTensor_succ names m (by omega) get heq]
+    rw [inverseTensor_succ names hne m (by omega) get heq]
     constructor
     · intro h0; rw [if_pos h0]
     · intro h0
